@@ -25,7 +25,8 @@ REG = Registry(
     ],
 )
 
-KINDS = ["kmeans", "gmm", "isv", "jfa", "wccn", "jfa_bag", "isv_bag", "isv_late_ubm", "jfa_late_ubm"]
+KINDS = ["kmeans", "gmm", "isv", "jfa", "wccn", "jfa_bag", "isv_bag", "isv_late_ubm", "jfa_late_ubm", "isv_cold_ubm",
+         "jfa_cold_ubm"]
 
 
 def triple(draw):
@@ -56,14 +57,14 @@ def triple(draw):
                 for _ in range(n)]
         t.update(ubm=p, rU=c["U"].shape[1], rV=(c["V"].shape[1] if c["V"] is not None else 1), sessions=sess, y=y,
                  em=gen.integer(draw, 1, 2), npart=gen.integer(draw, 1, n))
-        if kind.endswith("_late_ubm"):
+        if kind.endswith("_late_ubm") or kind.endswith("_cold_ubm"):
             # the machine gets no trained UBM at construction (ubm=None + ubm_kwargs): U/V/D are created at fit time
             # (a 2-D array: one row per labelled item; the UBM is trained on the rows)
             t["frames"] = np.stack([gen.data_from(draw, p, 1, kind="bulk", r=r)[0][0] for _ in range(n)])
     return t
 
 
-def fit_triple(t, reuse=None, other=None):
+def fit_triple(t, reuse=None, other=None, cfg=None, seed_shift=0):
     """Train the registered triple; returns a dict of parameter arrays.  `reuse`: dict holding estimator objects of
     earlier fits of this triple (k-means / WCCN re-initialise on every fit, so the SAME object trained before on
     `other` data must give the same result as a new one)."""
@@ -114,6 +115,17 @@ def fit_triple(t, reuse=None, other=None):
         if kind.startswith("jfa"):
             out["V"] = np.asarray(m.V, float)
         return out
+    if kind.endswith("_cold_ubm"):
+        # no UBM and no warm start: the machine trains its UBM itself, from a seeded k-means initialisation; `cfg` is the
+        # caller's configuration dict (possibly shared by every machine of a history), None = a private one
+        own = cfg if cfg is not None else dict(n_gaussians=int(t["ubm"]["C"]), max_fitting_steps=2, convergence_threshold=None)
+        kw = dict(ubm=None, ubm_kwargs=own, random_state=int(t["seed"]) + int(seed_shift), em_iterations=int(t["em"]))
+        m = JFAMachine(r_U=int(t["rU"]), r_V=int(t["rV"]), **kw) if kind.startswith("jfa") else ISVMachine(r_U=int(t["rU"]), **kw)
+        m.fit_using_array(np.asarray(t["frames"]), np.asarray(t["y"]))
+        out = {"U": np.asarray(m.U, float), "D": np.asarray(m.D, float), "ubm_means": np.asarray(m.ubm.means, float)}
+        if kind.startswith("jfa"):
+            out["V"] = np.asarray(m.V, float)
+        return out
     stats = [sut.make_stats(s) for s in t["sessions"]]
     if kind.startswith("jfa"):
         m = JFAMachine(r_U=int(t["rU"]), r_V=int(t["rV"]), ubm=ubm, random_state=int(t["seed"]), em_iterations=int(t["em"]))
@@ -132,7 +144,7 @@ def g_history(draw):
     triples = [triple(draw) for _ in range(gen.integer(draw, 1, 3))]
     ops = []
     for _ in range(gen.integer(draw, 2, 8)):
-        name = gen.choice(draw, ["perturb", "refit", "fit_other", "refit", "perturb"])
+        name = gen.choice(draw, ["perturb", "refit", "fit_other", "refit", "perturb", "fit_other_seed"])
         if name == "perturb":
             ops.append({"op": name, "k": gen.integer(draw, 0, 2**31 - 1), "j": gen.integer(draw, 0, 50)})
         else:
@@ -147,6 +159,7 @@ def c_history(ctx, case):
     triples = case["triples"]
     first = {}
     objects = {}
+    shared_cfg = {}
     perturbed_since = {}
     hist = 0
     decisive = False
@@ -160,12 +173,42 @@ def c_history(ctx, case):
             continue
         i = int(op["i"])
         hist += 1
+        cold = triples[i]["kind"].endswith("_cold_ubm")
+        cfg = None
+        if cold:
+            # one configuration dict per UBM size, owned by the caller and handed to EVERY machine of this history
+            C_ = int(triples[i]["ubm"]["C"])
+            cfg = shared_cfg.setdefault(C_, dict(n_gaussians=C_, max_fitting_steps=2, convergence_threshold=None))
+            if i not in first:
+                # the reference of this triple comes from a machine with a private configuration and no history
+                try:
+                    clean = fit_triple(triples[i], None, None, cfg=None)
+                except np.linalg.LinAlgError:
+                    # a UBM trained from scratch on a handful of rows can leave a component without any data; the
+                    # subspace training refuses such statistics (DESIGN 8.3) - not a matter of this property
+                    ctx.discard("cold-start UBM left a component without data (training refused)")
+                if not all(np.isfinite(v).all() for v in clean.values()):
+                    ctx.discard("cold-start UBM training gave a non-finite model (empty k-means cluster)")
+                first[i] = clean
+                perturbed_since[i] = False
+                # "what was trained before": a machine with ANOTHER seed is trained first with the shared dict
+                try:
+                    fit_triple(triples[i], None, None, cfg=cfg, seed_shift=7)
+                except np.linalg.LinAlgError:
+                    pass
+            if op["op"] == "fit_other_seed":
+                ctx.event("same configuration dict used by a machine with another seed")
+                try:
+                    fit_triple(triples[i], None, None, cfg=cfg, seed_shift=1 + int(op.get("same_object", 0)))
+                except np.linalg.LinAlgError:
+                    ctx.event("other-seed machine refused its statistics (component without data)")
+                continue
         reuse = objects.setdefault(i, {}) if op.get("same_object") else None
         other = None
         if reuse is not None and "obj" in reuse:
             ctx.event("re-fit of the same estimator object")
             other = np.asarray(triples[i]["X"])[::-1] * 1.3 + 0.5 if op.get("other_first") else None
-        res = fit_triple(triples[i], reuse, other)
+        res = fit_triple(triples[i], reuse, other, cfg=cfg)
         for k, v in res.items():
             ctx.finite(v, "%s of %s" % (k, triples[i]["kind"]))
         if i not in first:
